@@ -22,6 +22,7 @@ import (
 	"fmt"
 	"strconv"
 	"strings"
+	"sync"
 	"testing"
 
 	"gotest.tools/v3/assert"
@@ -2026,4 +2027,41 @@ func assertWildCardLimits(t *testing.T, limitsConfig map[string]*LimitConfig, ex
 		t.Errorf("new resource create returned error or wrong resource: error %t, res %v", err, configuredResource)
 	}
 	assert.Equal(t, resources.Equals(expResource, configuredResource), true)
+}
+
+// Two users without a group limit of their own are tracked under the wildcard group. The tracker of the wildcard group
+// does not exist until the first such user shows up (and is removed again when its usage drops to zero). When two users
+// show up at the same moment the usage of both must be tracked for the group.
+func TestConcurrentFirstUseOfWildcardGroup(t *testing.T) {
+	setupUGM()
+	defer setupUGM()
+	manager := GetUserManager()
+	conf := createUpdateConfigWithWildCardUsersAndGroups("named", "namedgroup", "*", "*", "100000", "100000")
+	assert.NilError(t, manager.UpdateConfig(conf.Queues[0], "root"))
+	usage := resources.NewResourceFromMap(map[string]resources.Quantity{"memory": 10, "vcores": 1})
+	expected := resources.Multiply(usage, 2)
+	lost := 0
+	for r := 0; r < 2000 && lost < 3; r++ {
+		u1 := security.UserGroup{User: fmt.Sprintf("u-%d-1", r), Groups: []string{"g1"}}
+		u2 := security.UserGroup{User: fmt.Sprintf("u-%d-2", r), Groups: []string{"g2"}}
+		start := make(chan struct{})
+		var wg sync.WaitGroup
+		wg.Add(2)
+		go func() { defer wg.Done(); <-start; manager.IncreaseTrackedResource("root.parent", "app1", usage, u1) }()
+		go func() { defer wg.Done(); <-start; manager.IncreaseTrackedResource("root.parent", "app2", usage, u2) }()
+		close(start)
+		wg.Wait()
+		got := manager.GetGroupResources("*")
+		if !resources.Equals(got, expected) {
+			lost++
+			t.Errorf("round %d: wildcard group usage %v, expected %v", r, got, expected)
+		}
+		manager.DecreaseTrackedResource("root.parent", "app1", usage, u1, true)
+		manager.DecreaseTrackedResource("root.parent", "app2", usage, u2, true)
+		if left := manager.GetGroupResources("*"); left != nil && !resources.IsZero(left) {
+			t.Errorf("round %d: usage left behind %v", r, left)
+		}
+		// the wildcard tracker is created on first use: start the next round without it (as after a restart / reload)
+		manager.ClearGroupTrackers()
+	}
 }
